@@ -39,6 +39,8 @@ def _expected(space, x):
         x = np.asarray(x, dtype=np.float32)
         if len(space.shape) == 3 and not (np.all(space.high == 1) and np.all(space.low == 0)) and np.isfinite(space.high).all() and np.isfinite(space.low).all():
             return (x - space.low) / (space.high - space.low)
+        if x.ndim == 0:
+            return x.reshape(1)          # a scalar Box is one feature: the network's input shape is (1,)
         return x
     if isinstance(space, spaces.Discrete):
         return np.eye(int(space.n), dtype=np.float32)[int(x)]
